@@ -17,6 +17,13 @@ site at all). -/
 def builderFunctions : List String :=
   ["evaluate__json_to_xml", "evaluate__json_to_xml.json_object_to_etree", "evaluate__json_to_xml.value_to_etree"]
 
+/-- writes to an Element that is a fresh COPY made a line before (reviewed one by one, exact site):
+`serialize_to_xml` does `elem = copy(elem); elem.tail = None` to serialize an element without its
+tail (ElementTree: `Element.__copy__` = new element sharing the children; lxml: deep copy) — the
+caller's element keeps its tail (histories: `serialize(..)` on documents with tails, ET and lxml). -/
+def reviewedCopyWrites : List (String × String × String × String) := [
+  ("element", "elementpath/serialization.py", "serialize_to_xml", "elem.tail =")]
+
 /-- files that own the XPath node wrappers (`XPathNode` objects built per context around the
 caller's elements); attribute writes on wrappers are confined to them -/
 def nodeWrapperFiles : List String := ["elementpath/tree_builders.py", "elementpath/xpath_nodes.py"]
@@ -87,18 +94,16 @@ def reviewedTokenWrites : List ((String × String × String) × Memo) := [
   (("elementpath/xpath_tokens/functions.py", "XPathFunction.to_partial_function", "self.label ="), .dynamic),
   (("elementpath/xpath_tokens/functions.py", "XPathFunction.to_partial_function", "self.nargs ="), .dynamic),
   (("elementpath/xpath_tokens/functions.py", "XPathFunction.to_partial_function", "setattr(self, ...)"), .dynamic),
-  -- XPathMap is token and value at once: `_map` caches the evaluated entries of a map VALUE (built with
-  -- a context in the constructor's evaluate); histories: `map{'k': $v}('k')`, map:keys / size / merge / put
-  (("elementpath/xpath_tokens/maps.py", "XPathMap._evaluate", "self._nan_key ="), .dynamic),
-  (("elementpath/xpath_tokens/maps.py", "XPathMap.items", "self._map ="), .dynamic),
-  (("elementpath/xpath_tokens/maps.py", "XPathMap.keys", "self._map ="), .dynamic),
-  (("elementpath/xpath_tokens/maps.py", "XPathMap.values", "self._map ="), .dynamic)]
+  -- XPathMap is token and value at once; since the C15 phase-2 fix keys()/values()/items() no longer cache `_map`
+  -- on the token (entries removed from this list: a reintroduction has to be reviewed again);
+  -- histories: `map{'k': $v}('k')`, map:keys / size / merge / put
+  (("elementpath/xpath_tokens/maps.py", "XPathMap._evaluate", "self._nan_key ="), .dynamic)]
 
 /-- is a scanned write site (kind, file, function, site) acceptable? -/
 def treeWriteOk (w : String × String × String × String) : Bool :=
   match w with
   | (kind, file, fn, _) =>
-    if kind = "element" then decide (fn ∈ builderFunctions)
+    if kind = "element" then decide (fn ∈ builderFunctions) || decide (w ∈ reviewedCopyWrites)
     else if kind = "xnode" then decide (file ∈ nodeWrapperFiles)
     else if kind = "namespaces" ∨ kind = "variables" then decide (w ∈ reviewedDictWrites)
     else false          -- "schema" (or anything else): no write site is accepted
